@@ -29,7 +29,8 @@
    contains a line feed (before that commit both were false: finding K7, repaired).
 
    Proved: both round-trip statements for EVERY input of at most five bytes over the
-   alphabet {a, SP, LF, '(', ')', '/', '"', ','} — 37449 inputs evaluated by the kernel. *)
+   alphabet [small_alphabet] (the letter a, space, line feed, both parentheses, slash,
+   double quote, comma) — 37449 inputs evaluated by the kernel. *)
 From Verif.Base Require Import Bytes.
 From Verif.Modfile Require Import Syntax Lex Parse Print ProofsRound.
 
